@@ -143,13 +143,13 @@ Proof. unfold swapb. destruct swp; [apply zlen_rev|reflexivity]. Qed.
 Lemma fread_bytes_exact bs tail : fread_bytes (zlen bs) (bs ++ tail) = Ok (bs, tail).
 Proof.
   unfold fread_bytes. pose proof (zlen_nonneg bs). destruct (zlen bs <? 0) eqn:C; [lia|].
-  unfold zlen. rewrite Nat2Z.id, split_at_app. reflexivity.
+  rewrite take_z_app. reflexivity.
 Qed.
 
 Lemma fread_bytes_short n s : zlen s < n -> fread_bytes n s = Err SBDF_ERROR_IO.
 Proof.
   intros H. unfold fread_bytes. destruct (n <? 0) eqn:C; [reflexivity|].
-  rewrite split_at_short; [reflexivity|]. unfold zlen in H. lia.
+  rewrite take_z_short by exact H. reflexivity.
 Qed.
 
 Lemma rspec_fread bs : rspec (fread_bytes (zlen bs)) bs bs.
@@ -194,11 +194,11 @@ Proof.
   unfold write_string, enc_string. eapply wspec_bind; [apply wspec_int32|]. apply wspec_put. discriminate.
 Qed.
 
-Lemma rspec_string s : zlen s < 2147483648 -> rspec (read_string swp cap0) (enc_string s) s.
+Lemma rspec_string s : zlen s < 2147483647 -> rspec (read_string swp cap0) (enc_string s) s.
 Proof.
   intros Hs. pose proof (zlen_nonneg s) as N. unfold read_string, enc_string.
   eapply rspec_bind; [apply rspec_int32; unfold i32_range; lia|].
-  destruct (zlen s <? 0) eqn:C; [lia|].
+  destruct (zlen s <? 0) eqn:C; [lia|]. unfold INT_MAX. destruct (zlen s =? 2147483647) eqn:C1; [lia|].
   eapply rspec_ext; [apply app_nil_l|]. eapply rspec_bind.
   - unfold ralloc, alloc_ok. apply rspec_ret.
   - apply rspec_fread.
@@ -208,7 +208,7 @@ Lemma skip_string_exact s tail : zlen s < 2147483648 -> skip_string swp (enc_str
 Proof.
   intros Hs. pose proof (zlen_nonneg s) as N. unfold skip_string, enc_string, rd_bind.
   rewrite <- app_assoc. destruct (rspec_int32 (zlen s)) as [E _]; [unfold i32_range; lia|]. rewrite E.
-  destruct (zlen s <? 0) eqn:C; [lia|]. unfold fseek_cur. rewrite C. now rewrite zdrop_app_exact.
+  destruct (zlen s <? 0) eqn:C; [lia|]. unfold fseek_cur. rewrite C. now rewrite drop_z_app.
 Qed.
 
 (* ---- section markers, file header ---- *)
